@@ -38,7 +38,7 @@ EXHAUSTIVE = False
 
 
 def budget(tier):
-    return PATTERNS * (80 if tier == "quick" else 1200)
+    return PATTERNS * (80 if tier == "quick" else 4000)
 
 
 def wall(tier):
